@@ -26,6 +26,7 @@ type c13Op struct {
 	A    uint64 `json:"a,omitempty"`
 	B    uint64 `json:"b,omitempty"`
 	Keep bool   `json:"keep,omitempty"`
+	Mode string `json:"mode,omitempty"` // "" = SendPID, "alias" = SendAlias (wire byte from alias ID[1]), "name" = SendProcessID (wire byte from the sender)
 	L    int    `json:"l,omitempty"`
 	N    int    `json:"n,omitempty"`
 }
@@ -45,6 +46,8 @@ const (
 type c13Sent struct {
 	seq        int64
 	a, b       uint64
+	key        uint64 // id the wire byte derives from (b, or a for name-addressed sends)
+	mode       string
 	keep       bool
 	epoch      int // pool epoch at send time
 	link       int // link the frame was really written to
@@ -103,6 +106,15 @@ func c13gen(rng *Rng, withPoolChange bool, stall bool) c13Scenario {
 	for i := 0; i < nt; i++ {
 		ts = append(ts, c13id(rng))
 	}
+	modes := make([]string, nt) // addressing mode per receiver: pid (mostly), alias, registered name
+	for i := range modes {
+		switch rng.Intn(6) {
+		case 0:
+			modes[i] = "alias"
+		case 1:
+			modes[i] = "name"
+		}
+	}
 	nops := 20 + rng.Intn(60)
 	links := sc.Pool
 	inflight := 0
@@ -111,7 +123,8 @@ func c13gen(rng *Rng, withPoolChange bool, stall bool) c13Scenario {
 		switch {
 		case k < 60 || inflight == 0:
 			keep := !rng.Chance(1, 25)
-			sc.Ops = append(sc.Ops, c13Op{Kind: "send", A: ss[rng.Intn(ns)], B: ts[rng.Intn(nt)], Keep: keep})
+			ti := rng.Intn(nt)
+			sc.Ops = append(sc.Ops, c13Op{Kind: "send", A: ss[rng.Intn(ns)], B: ts[ti], Keep: keep, Mode: modes[ti]})
 			inflight++
 		case k < 90:
 			sc.Ops = append(sc.Ops, c13Op{Kind: "release", L: rng.Intn(links), N: 1 + rng.Intn(4)})
@@ -219,12 +232,23 @@ func c13run(c *Ctx, sc c13Scenario) c13Out {
 					unhold = append(unhold, p.b.holdSeq(seq))
 				}
 			}
-			err := p.ca.SendPID(from, to, gen.MessageOptions{KeepNetworkOrder: op.Keep}, seq)
+			var err error
+			mo := gen.MessageOptions{KeepNetworkOrder: op.Keep}
+			dstKey := op.B // the id word the wire byte is derived from
+			switch op.Mode {
+			case "alias":
+				err = p.ca.SendAlias(from, gen.Alias{Node: p.b.name, Creation: creB, ID: [3]uint64{7, op.B, 0}}, mo, seq)
+			case "name":
+				err = p.ca.SendProcessID(from, gen.ProcessID{Node: p.b.name, Name: gen.Atom(fmt.Sprintf("n%d", op.B))}, mo, seq)
+				dstKey = op.A // SendProcessID: "use the same order for the peer"
+			default:
+				err = p.ca.SendPID(from, to, mo, seq)
+			}
 			keep := 0
 			if op.Keep {
 				keep = 1
 			}
-			idx := add(fmt.Sprintf("send %d %d %d", op.A, op.B, keep), "")
+			idx := add(fmt.Sprintf("send %d %d %d", op.A, dstKey, keep), "")
 			if err != nil {
 				if err == gen.ErrNoConnection {
 					want[idx] = "noconn"
@@ -233,7 +257,7 @@ func c13run(c *Ctx, sc c13Scenario) c13Out {
 				out.disagree = fmt.Sprintf("SendPID(%d->%d): %v", op.A, op.B, err)
 				return out
 			}
-			s := &c13Sent{seq: seq, a: op.A, b: op.B, keep: op.Keep, epoch: epoch, link: -1, modelIdx: idx}
+			s := &c13Sent{seq: seq, a: op.A, b: op.B, key: dstKey, mode: op.Mode, keep: op.Keep, epoch: epoch, link: -1, modelIdx: idx}
 			sent = append(sent, s)
 			if !p.waitFrames(len(sent), timeout) {
 				out.inconclusive = true
@@ -247,7 +271,7 @@ func c13run(c *Ctx, sc c13Scenario) c13Out {
 				}
 				last := fs[len(fs)-1:]
 				k5decodeSeq(l, last)
-				if last[0].Seq == seq && last[0].From == op.A && last[0].To == op.B {
+				if last[0].Seq == seq && last[0].From == op.A && (op.Mode == "name" || last[0].To == op.B) {
 					s.link, s.order = l.id, last[0].Order
 				}
 			}
@@ -363,12 +387,15 @@ func c13run(c *Ctx, sc c13Scenario) c13Out {
 	for _, s := range sent {
 		bySeq[s.seq] = s
 	}
-	type pr struct{ a, b uint64 }
+	type pr struct {
+		a, b uint64
+		mode string
+	}
 	last := map[pr]*c13Sent{}
 	seen := map[int64]int{}
 	for _, g := range got {
 		s := bySeq[g.Seq]
-		if s == nil || g.From != s.a || g.To != s.b {
+		if s == nil || g.From != s.a || (s.mode != "name" && g.To != s.b) || (s.mode == "name" && g.Name != fmt.Sprintf("n%d", s.b)) {
 			out.viol[c13SigOrder] = fmt.Sprintf("routed message seq=%d from=%d to=%d was never sent like that", g.Seq, g.From, g.To)
 			continue
 		}
@@ -376,7 +403,7 @@ func c13run(c *Ctx, sc c13Scenario) c13Out {
 		if !s.keep {
 			continue
 		}
-		k := pr{s.a, s.b}
+		k := pr{s.a, s.b, s.mode}
 		if l := last[k]; l != nil && l.seq > s.seq {
 			sig := c13SigOrder
 			if l.epoch != s.epoch && l.link != s.link {
@@ -384,8 +411,8 @@ func c13run(c *Ctx, sc c13Scenario) c13Out {
 				sig = c13SigPool
 			}
 			if _, dup := out.viol[sig]; !dup {
-				out.viol[sig] = fmt.Sprintf("pair %d->%d (order bytes %d/%d, pool %d): message #%d routed after #%d (links %d/%d)",
-					s.a, s.b, s.a%255, s.b%255, sc.Pool, s.seq, l.seq, s.link, l.link)
+				out.viol[sig] = fmt.Sprintf("pair %d->%d%s (order bytes %d/%d, pool %d): message #%d routed after #%d (links %d/%d)",
+					s.a, s.b, map[string]string{"": "", "alias": " (alias)", "name": " (registered name)"}[s.mode], s.a%255, s.b%255, sc.Pool, s.seq, l.seq, s.link, l.link)
 			}
 		}
 		if l := last[k]; l == nil || l.seq < s.seq {
@@ -428,7 +455,11 @@ func c13compare(o *c13Out, res []string) string {
 		}
 		var is []string
 		for _, g := range rc.got {
-			is = append(is, fmt.Sprintf("%d:%d:%d", g.From, g.To, g.Seq))
+			k := g.To
+			if s := bySeq[g.Seq]; s != nil {
+				k = s.key
+			}
+			is = append(is, fmt.Sprintf("%d:%d:%d", g.From, k, g.Seq))
 		}
 		a, b := append([]string(nil), ms...), append([]string(nil), is...)
 		sort.Strings(a)
@@ -462,7 +493,7 @@ func c13compare(o *c13Out, res []string) string {
 
 func runC13(c *Ctx) {
 	r := c.R
-	r.Rule = "K5 scenarios: pool 1..4 (+ up to 2 joined links), 1-3 sender and 1-3 receiver ids per scenario drawn by residue mod 255 " +
+	r.Rule = "K5 scenarios: pool 1..4 (+ up to 2 joined links), 1-3 sender and 1-3 receiver ids per scenario (receivers addressed by pid, alias or registered name) drawn by residue mod 255 " +
 		"(boundaries 0,1,2,127,253,254, uniform otherwise; magnitudes 10^3, 2^32, 2^63, 2^64-1), 20..80 ops (send / release k frames of one link / join / link loss), " +
 		"harness-decided delivery order; non-trivial = at least one frame was routed before an earlier-sent frame of another link; distinct by the op list"
 	type pend struct {
@@ -547,6 +578,9 @@ func runC13(c *Ctx) {
 				}
 				if op.A > 1<<40 || op.B > 1<<40 {
 					r.Count("send.huge-id")
+				}
+				if op.Mode != "" {
+					r.Count("send.by-" + op.Mode)
 				}
 			}
 		}
